@@ -25,6 +25,10 @@ def meta_of(path):
     return out
 
 
+THOROUGH_OK = set()
+tp = os.path.join(V, "tools", "thorough_ok.txt")
+if os.path.exists(tp):
+    THOROUGH_OK = {l.strip() for l in open(tp) if l.strip() and not l.startswith("#")}
 checks, claimed = [], set()
 CLAIM = [l.strip() for l in open(os.path.join(V, "tools", "claimed.txt")) if l.strip() and not l.startswith("#")]
 for path in sorted(glob.glob(os.path.join(V, "checks", "C*.py"))):
@@ -37,7 +41,7 @@ for path in sorted(glob.glob(os.path.join(V, "checks", "C*.py"))):
     checks.append({
         "property_id": pid,
         "quick_cmd": "./check %s --tier quick" % pid,
-        "thorough_cmd": "./check %s --tier thorough" % pid,
+        **({"thorough_cmd": "./check %s --tier thorough" % pid} if pid in THOROUGH_OK else {}),
         "evidence_file": "/verif/evidence/%s.json" % pid,
         "replay_cmd_template": "./check %s --replay {path}" % pid,
         "engine": meta.get("engine", "mc-explorers"),
